@@ -1,5 +1,5 @@
-\* emission (workers 1): same model as Reduce_mc.cfg
-CONSTANTS MaxLevel = 30  MaxStack = 1  Rich = FALSE
+\* emission (workers 1): same model as Reduce_mc_thorough.cfg
+CONSTANTS MaxLevel = 30  MaxStack = 1  Rich = TRUE
 ACTION_CONSTRAINT Emit
 INVARIANT EmitState
 INIT Init
